@@ -293,7 +293,7 @@ class Ctx:
             if "Closed under the global context" in b:
                 self.obligations.append((t, True, "closed"))
                 continue
-            axs = re.findall(r"^([A-Za-z_][\w.']*)\s*:", b, re.M)
+            axs = [a for a in re.findall(r"^([A-Za-z_][\w.']*)\s*:", b, re.M) if a != "Axioms"]
             if not axs:
                 self.obligations.append((t, False, "no Print Assumptions output"))
                 failed.append(t)
